@@ -33,6 +33,7 @@ NAME = st.one_of(
     st.text(alphabet='ab 1', min_size=1, max_size=8),          # runs of blanks, leading/trailing blanks
     st.integers(1, 999).map(str),
     st.sampled_from(['#', '##', '?', '-', '*', '+', '#1', '1#', '=', '^']),     # values that mean something special elsewhere in PBN
+    st.sampled_from(['007', '+5', '-3', '1_0', ' 7', '7 ', '0', '00', '1e3', '0x10', '1.0', 'None', 'null', 'true', 'nan']),   # look like numbers / constants
 )
 TAGNAME = st.text(alphabet='abcdefghijklmnopqrstuvwxyzABCDEFGHIJKLMNOPQRSTUVWXYZ', min_size=1, max_size=8).map(
     lambda s: 'X' + s).filter(lambda s: s not in ('Board', 'Dealer', 'Vulnerable', 'Deal'))
